@@ -228,6 +228,7 @@ type BuiltTx struct {
 	EthTip     *big.Int
 	EthType    int
 	Creates    *common.Address
+	AVS        *AVSTx
 }
 
 func sdkDur(sec int64) time.Duration { return time.Duration(sec) * time.Second }
@@ -408,11 +409,17 @@ func (r *Run) Build(ctx sdk.Context, op Op) (*BuiltTx, error) {
 		if op.S != "" && op.S != "dogfood" {
 			msg.PublicKeyJSON = ""
 		}
+		if op.S != "" && op.S != "dogfood" {
+			bt.AVS = &AVSTx{Kind: "optin", AVS: msg.AvsAddress, Operator: o.Addr.String()}
+		}
 		return bt, r.cosmosTx(ctx, o.Account, bt, msg)
 	case "optout":
 		o := w.Op(op.A)
 		bt.Operator = o.Addr
 		bt.Method = "OptOutOfAVS"
+		if op.S != "" && op.S != "dogfood" {
+			bt.AVS = &AVSTx{Kind: "optout", AVS: r.avsAddr(op.S), Operator: o.Addr.String(), Out: true}
+		}
 		return bt, r.cosmosTx(ctx, o.Account, bt, &operatortypes.OptOutOfAVSReq{FromAddress: o.Addr.String(), AvsAddress: r.avsAddr(op.S)})
 	case "setkey":
 		o := w.Op(op.A)
@@ -475,6 +482,9 @@ var extraBuilders = map[string]func(r *Run, ctx sdk.Context, op Op) (*BuiltTx, e
 func (r *Run) avsAddr(s string) string {
 	if s == "" || s == "dogfood" {
 		return r.W.DogfoodAVS
+	}
+	if a, ok := r.W.avsRef(s); ok {
+		return a
 	}
 	return s
 }
